@@ -6,7 +6,7 @@ from fractions import Fraction
 import vlib, proglib
 from proglib import DT, DT_BITS
 
-PROP_FILES = ["Properties_C02.v"]
+PROP_FILES = ["Properties_C02.v", "Properties_float.v"]
 SUMM64 = ("i32", "u32", "i64", "u64", "f64")
 
 
